@@ -23,6 +23,7 @@ EXPLANATION = (
     'the colon by an exact prefix copy; (GRD.3) the user name is upgraded only under the rule\'s flag and '
     'an untrusted (~) ident; (WIRE.1) the assignment is the pre_registered slot, returns early on a '
     'pre-assigned class, and the slot broadcast precedes the verdict send on every path of the accept '
+    'function; (MPT.2) every OK reply is recorded in the ok mask the xreply_ok criterion reads; '
     'function; (WIRE.2) every rule item read while compiling carries a hook that rebuilds the rules.')
 ASSUMPTIONS = ['clang 14 CFG', 'fnmatch/irc_check_mask semantics are trusted (C13 not claimed)']
 
@@ -275,9 +276,45 @@ def wiring(P, R, H):
     R.floor('C11.WIRE.1', 7)
     hooks.check_hook_coverage(P, R, 'C11.WIRE.2', H)
     R.floor('C11.WIRE.2', 1)
+    # an edit only reaches the hook if the configuration layer notices it: its change predicates
+    from . import c15
+    from ..report import Remap
+    c15.notification(P, Remap(R, {'C15.GRD.1': 'C11.WIRE.3', 'C15.MPT.1': 'C11.WIRE.3'}))
+
+
+def ok_recorded(P, R):
+    """MPT.2: the xreply_ok criterion reads the client's ok mask: every OK reply (with or without an
+    account, from any protocol) must set the answering slot's bit before the reply is retired."""
+    from .c04 import slot_impls
+    n = 0
+    for f in slot_impls(P).values():
+        for bid in f.reachable_blocks():
+            for e in f.out[bid]:
+                r = rules.edge_rel(e)
+                if not r:
+                    continue
+                l, op, rr = r
+                # the last byte test of "OK": reply[2] == NUL or == ' ' after reply[0]=='O', reply[1]=='K'
+                if isinstance(l, dict) and l.get('k') == 'idx' and const_of(l['index']) == 2 and op == '==' and const_of(rr) in (0, 32):
+                    gs = f.guards(e.dst) + [r]
+                    if not (any(const_of(g[2]) == ord('O') and g[1] == '==' for g in gs) and any(const_of(g[2]) == ord('K') and g[1] == '==' for g in gs)):
+                        continue
+
+                    def sets_ok(t):
+                        return t.ev['k'] == 'store' and t.ev['lhs'].get('k') == 'mem' and t.ev['lhs']['field'] == 'ok_mask' and t.ev.get('op') == '|='
+                    if any(sets_ok(t) and (f.dominates(t.bid, bid)) for t in f.sites()):
+                        continue      # a later re-test of the same byte, already past the recording
+                    p = f.path_from_block(e.dst, sets_ok)
+                    # paths that end in a kill or an early return for an unknown reply are not OK paths; the OK path reaches the release
+                    n += 1
+                    R.ob('C11.MPT.2', p is None, P.relloc((f.blocks[bid].get('term') or {}).get('loc', '?')),
+                         'every path of an OK reply (third byte %s) records the answering service in the client\'s ok mask' % ('NUL' if const_of(rr) == 0 else 'space'), key='ok-recorded:%s' % const_of(rr))
+                    R.obligations[-1]['function'] = f.name
+    R.floor('C11.MPT.2', 2, 'OK reply edges')
 
 
 def run(P, R, tier):
+    ok_recorded(P, R)
     H = compile_pass(P, R)
     comparator(P, R)
     scan(P, R)
